@@ -611,7 +611,7 @@ func persistRunKill(ctx *Ctx, in persistIn, cal *persistKillCal) (persistObs, st
 	// delay: from a bit before the worker's first operation to a bit after its last
 	lo := cal.start * 8 / 10
 	span := cal.full - lo
-	delay := lo + time.Duration(int64(span)*int64(in.Frac)/1000)
+	delay := lo + time.Duration(int64(span)*int64(in.Frac)/1250) // sequences vary in length: aim at the first 80% of the calibrated run
 	killed, _ := persistRunSub(dir, "persist-worker", delay)
 	var obs persistObs
 	obs.Killed = killed
